@@ -9,6 +9,7 @@ import (
 	"sort"
 	"strings"
 	"sync"
+	"sync/atomic"
 
 	"github.com/segmentio/ksuid"
 
@@ -25,6 +26,8 @@ type OpResult struct {
 	Err  string    `json:"err,omitempty"`
 	ID   string    `json:"id,omitempty"` // commit / pool id returned
 	UID  int       `json:"uid,omitempty"`
+	T0   int64     `json:"t0"` // global sequence numbers taken at the start / end of the operation
+	T1   int64     `json:"t1"`
 	Rows []int     `json:"rows,omitempty"` // scan: the u values returned
 }
 
@@ -48,7 +51,7 @@ type Runner struct {
 	// Thresh is pool p's object threshold (0 = default).
 	Thresh int64
 	// Tip, if set, realizes the k-th "tip" operation of client c (default: load one value).
-	Tip func(ctx context.Context, lk *lakeh.Lake, pool ksuid.KSUID, c, k int, branch string, uid int) (ksuid.KSUID, error)
+	Tip func(ctx context.Context, lk *lakeh.Lake, pool ksuid.KSUID, c, k int, op lakeh.JOp) (ksuid.KSUID, error)
 	// CommitData, filled by Execute: real commit id (string) -> sorted u values visible at it (read cold after the run).
 	CommitData map[string][]int
 	MainTip    string
@@ -105,6 +108,7 @@ func (r *Runner) Execute(sc *lakeh.JScenario, sched []lakeh.GateStep, want *lake
 	headPath := "pools/HEAD"
 	if sc.Journal == "branches" {
 		gate = lakeh.NewGate(store, poolP.String()+"/branches", poolP.String()+"/commits")
+		gate.Data = poolP.String() + "/data"
 		headPath = poolP.String() + "/branches/HEAD"
 	} else {
 		gate = lakeh.NewGate(store, "pools", "")
@@ -126,6 +130,7 @@ func (r *Runner) Execute(sc *lakeh.JScenario, sched []lakeh.GateStep, want *lake
 	}
 	var mu sync.Mutex
 	var wg sync.WaitGroup
+	var clock int64
 	for i := 1; i <= n; i++ {
 		gate.Begin(i)
 		wg.Add(1)
@@ -136,14 +141,20 @@ func (r *Runner) Execute(sc *lakeh.JScenario, sched []lakeh.GateStep, want *lake
 			for k, op := range sc.Script[i-1] {
 				res := OpResult{C: i, I: k + 1, Op: op, UID: 100*i + k + 1}
 				gate.OpBoundary(i)
+				res.T0 = atomic.AddInt64(&clock, 1)
 				var e error
 				switch op.K {
+				case "load":
+					var cm ksuid.KSUID
+					gate.ExpectUpload(i)
+					cm, e = lk.LoadZSON(ctx, poolP, op.Key, fmt.Sprintf("{k:%d,u:%d}", res.UID, res.UID))
+					res.ID = cm.String()
 				case "tip":
 					var cm ksuid.KSUID
-					if r.Tip != nil {
-						cm, e = r.Tip(ctx, lk, poolP, i, k+1, op.Key, res.UID)
+					if r.Tip == nil {
+						e = fmt.Errorf("scenario has a tip operation but the runner has no Tip realization")
 					} else {
-						cm, e = lk.LoadZSON(ctx, poolP, op.Key, fmt.Sprintf("{k:%d,u:%d}", res.UID, res.UID))
+						cm, e = r.Tip(ctx, lk, poolP, i, k+1, op)
 					}
 					res.ID = cm.String()
 				case "scan":
@@ -179,6 +190,7 @@ func (r *Runner) Execute(sc *lakeh.JScenario, sched []lakeh.GateStep, want *lake
 				case "rmid":
 					e = lk.API.RemovePool(ctx, ids[op.ID])
 				}
+				res.T1 = atomic.AddInt64(&clock, 1)
 				res.Res = "ok"
 				if e != nil {
 					res.Res, res.Err = "err", e.Error()
@@ -280,7 +292,7 @@ func (r *Runner) Execute(sc *lakeh.JScenario, sched []lakeh.GateStep, want *lake
 	if obs, err := lakeh.Open(ctx, store, 98, nil); err == nil {
 		want := map[string]bool{r.MainTip: true}
 		for _, g := range results {
-			if g.Op.K == "tip" && g.Res == "ok" {
+			if (g.Op.K == "tip" || g.Op.K == "load") && g.Res == "ok" {
 				want[g.ID] = true
 			}
 		}
@@ -366,7 +378,7 @@ func (r *Runner) Oracles(sc *lakeh.JScenario, store *lakeh.MemStore, poolP ksuid
 				have[u]++
 			}
 			for _, g := range results {
-				if g.Op.K != "tip" || g.Op.Key != b || g.Crashed() || r.SkipTipData {
+				if g.Op.K != "load" || g.Op.Key != b || g.Crashed() || r.SkipTipData {
 					continue
 				}
 				switch {
